@@ -253,8 +253,9 @@ static int brk_match(char *brk, int c, int flg)
 	int not = brk[0] == '^';
 	char *p = not ? brk + 1 : brk;
 	char *p0 = p;
-	if (flg & REG_ICASE && c < 128 && isupper(c))
-		c = tolower(c);
+	int c2 = c;		/* the other case of c */
+	if (flg & REG_ICASE && c < 128 && isalpha(c))
+		c2 = c ^ 0x20;
 	while (*p && (p == p0 || *p != ']')) {
 		if (p[0] == '[' && p[1] == ':') {
 			for (i = 0; i < LEN(brk_classes); i++) {
@@ -275,11 +276,7 @@ static int brk_match(char *brk, int c, int flg)
 			end = uc_dec(p);
 			p += uc_len(p);
 		}
-		if (flg & REG_ICASE && beg < 128 && isupper(beg))
-			beg = tolower(beg);
-		if (flg & REG_ICASE && end < 128 && isupper(end))
-			end = tolower(end);
-		if (c >= beg && c <= end)
+		if ((c >= beg && c <= end) || (c2 >= beg && c2 <= end))
 			return not;
 	}
 	return !not;
